@@ -14,6 +14,7 @@ import concurrent.futures
 import hashlib
 import json
 import os
+import random
 import shutil
 import time
 import vlib
@@ -263,6 +264,7 @@ def replay_chunk(ck, exes, cfg, base, per_sig, tot, nt):
 def gen_sequences(ck, cfg):
     import c09
     rng = ck.rng
+    lrng = random.Random(ck.seed * 7919 + 9)      # own stream for the logger argument (the documents of a seed stay the same)
     seqs = []
     fes_c = ["parsenode", "ctxstdio", "ctxfile", "nodeparse"]
     for s in range(cfg["nseq"]):
@@ -278,7 +280,7 @@ def gen_sequences(ck, cfg):
             ev.append({"a": "doc", "arg": {"fmt": fmt, "acc": acc, "items": items, "fe": fe, "lacc": lacc,
                                            "fail": 0 if cxx else rng.choice([0, 0, 0, 1, 2, 3, 4, 5, 6, 7, 8, 10, 12, 16, 24, cfg["maxk"]]),
                                            # the optional logger argument (front ends that have one): none / a log target
-                                           "log": rng.choice([0, 1]) if fe in ("nodeparse",) + CXX_FE else 0}})
+                                           "log": lrng.choice([0, 1]) if fe in ("nodeparse",) + CXX_FE else 0}})
             if rng.random() < 0.2:
                 ev.append({"a": "clear", "arg": {"x": 0}})
         ev.append({"a": "clear", "arg": {"x": 0}})
